@@ -8,7 +8,7 @@ import mgen
 from common import freephil, enc, tokenizer, AutoT, obj_j, err_j
 from props import _fetch, _heap
 
-LEVEL = "other"
+LEVEL = "proof"
 MODULE = "Phil.Props.C17"
 EXPLANATION = ("Purity is about object identity and mutation, which a functional model does not exhibit; the Lean part proves the "
                "lifting on an effect model: if every call's assignments stay within a summary that writes at most the .tmp marks "
@@ -22,7 +22,7 @@ EXPLANATION = ("Purity is about object identity and mutation, which a functional
                "fetch model applied to the ORIGINAL texts - a function of its inputs, so 'repeatable and inputs unchanged' "
                "is checked against one fixed mathematical value rather than against an earlier run.")
 LEVEL_TEXT = "Lean theorems about an object-identity (heap) model of copy / customized_copy / deepcopy / pickle: deepcopy is total on every closed heap and every parsed document's heap is well-formed (deepcopy_total, heapOfText_wf, deepcopy_of_parsed_document); the deep copy denotes the same tree, consists of new objects only, every child of a copied scope has that copy as parent, no existing cell is written and ANY later history of field assignments to the copy leaves every original unchanged (deepcopy_isomorphic_total, _disjoint_total, _children_linked_total, _assign_frame_total); a shallow copy is one new cell sharing the child objects and assignments to its fields leave the original unchanged (copy_shares, copy_assign_frame); the template-copy step of fetch shares exactly the master's children (fetchTemplate_* = finding D21 stated positively); effect-summary lifting history_pure / call_frame. The heap model is tied to /repo by a correspondence run on identity graphs (id()-based) of real objects after each copy operation on masters and fetch results; purity of every API call is validated by slot snapshots around random call histories, incl. parses under three converter registries and a SHARED argument interpreter compared with fresh ones; the fetch of the long-lived objects after every history is compared with the fetch model on the original texts."
-LEVEL_NOTE = "level 'other': copies are proved on the heap model; purity of fetch / extract / format / interpret themselves is validated per call (effect summaries), the lifting to all histories is proved. CPython's recursion limit (deepcopy beyond ~200 nested scopes) is outside the unbounded-stack model. Known finding D21."
+LEVEL_NOTE = "copies, fetch, fetch_diff, format, clone, resolve_variables and extraction have frame / sharing theorems on the heap model (fetchH_frame, fetchDiffH_frame, formatH_frame, cloneH_frame, resolveVarsH_frame, extract_frame), tied to the real objects by identity-graph correspondence; the abstraction theorem heap -> pure model is proved for fetch (fetchH_abs), by correspondence for diff / format; purity of the argument interpreter and whole-history effect summaries are validated per call (slot snapshots), the lifting to all histories is proved. CPython's recursion limit (deepcopy beyond ~200 nested scopes) is outside the unbounded-stack model. Known finding D21."
 TECHNIQUE = 'Lean 4 theorems on a heap (object identity) model + identity-graph correspondence + run-time validation of per-call write/share summaries'
 RULE = ("masters and source lists x histories of 5-25 API calls (fetch with/without tracking, fetch_diff, extract, format, clone, "
         "as_str at every level, argument interpretation, resolve, pickle/deepcopy/copy round trips, field assignments on "
@@ -434,6 +434,8 @@ def run(ctx):
     ccases, creqs, cimpls = [], [], []
     hcases, hreqs, himpls = [], [], []
     fcases, freqs, fimpls = [], [], []
+    dcases, dreqs, dimpls = [], [], []
+    gcases, greqs, gimpls = [], [], []
     icases, ireqs, iimpls = [], [], []
     for i in range(n):
         if ctx.time_left() < 30:
@@ -554,6 +556,29 @@ def run(ctx):
                 freqs.append(freq)
                 fimpls.append(fimpl)
                 fcases.append(dict(case, heap_fetch_sources=fsrcs))
+        # heap-level fetch_diff (Phil/HeapFetchDiff.lean, fetchDiffH) and format (Phil/HeapFormat.lean, formatH): the
+        # same identity-graph comparison for `master.fetch_diff(sources=…)` and for
+        # `master.format(master.fetch(sources).extract())` (with the is_template flags of the OLD objects afterwards)
+        if f is None and ctx.mode != "impl-only":
+            dreq, dimpl, dfail = _heap.fetch_diff_case(mt, srcs, _fetch.fetch_req(mt, srcs))
+            if dfail:
+                f = dfail
+            else:
+                ctx.count("heap_fetch_diff")
+                dreqs.append(dreq)
+                dimpls.append(dimpl)
+                dcases.append(dict(case, heap_fetch_diff_sources=srcs))
+        if f is None and ctx.mode != "impl-only":
+            # the python object comes from variable-free sources (the driver computes it without an environment)
+            fsrcs2 = srcs if (i % 3 != 0 and not any("$" in x for x in srcs)) else []
+            greq, gimpl, gfail = _heap.format_case(mt, fsrcs2, _fetch.fetch_req(mt, fsrcs2))
+            if gfail:
+                f = gfail
+            else:
+                ctx.count("heap_format")
+                greqs.append(greq)
+                gimpls.append(gimpl)
+                gcases.append(dict(case, heap_format_sources=fsrcs2))
         cls = None
         if f is None:
             f = copies_faithful(m) or shallow_copies_faithful(m, ss)
@@ -569,6 +594,10 @@ def run(ctx):
         ctx.corr("heap_copy_graph", hcases, hreqs, himpls)
     if freqs:
         ctx.corr("heap_fetch_graph", fcases, freqs, fimpls)
+    if dreqs:
+        ctx.corr("heap_fetch_diff_graph", dcases, dreqs, dimpls)
+    if greqs:
+        ctx.corr("heap_format_graph", gcases, greqs, gimpls)
     # process(arg=) is a function of (master text, home scope, argument) in the model: what an interpreter WITH a history
     # answered is compared with that one value
     if ireqs:
